@@ -264,7 +264,7 @@ func c14(ctx *Ctx) {
 	}
 	// names the generated code itself uses (helper types, locals, imported packages), as definition names of types that get
 	// unmarshal methods and as property names, with and without the YAML pass
-	for _, n := range []string{"Plain", "plain", "Plain_0", "raw", "value", "err", "j", "ok", "json", "yaml", "fmt", "errors", "reflect", "strings", "regexp", "math", "mapstructure", "time", "types", "error", "string", "len", "nil"} {
+	for _, n := range []string{"Plain", "plain", "Plain_0", "raw", "value", "err", "j", "ok", "json", "yaml", "fmt", "errors", "reflect", "strings", "regexp", "math", "mapstructure", "time", "types", "error", "string", "len", "nil", "UnmarshalJSON", "unmarshalJSON", "UnmarshalYAML", "unmarshal_yaml"} {
 		for _, extra := range []bool{false, true} {
 			cfg := baseCfg()
 			cfg.ExtraImports = extra
@@ -321,6 +321,23 @@ func c14(ctx *Ctx) {
 		defCases = append(defCases, SCase{ID: "C14/same-type-name/" + leaf, Cfg: baseCfg(), Axes: map[string]string{"pos": "same-type-name", "leaf": leaf},
 			Schema: J{"type": "object", "properties": J{"p0": J{"$ref": "#/$defs/sku.code"}, "p1": J{"$ref": "#/$defs/sku_code"}}, "$defs": defs}})
 	}
+	// a definition whose name normalises to the name of the root type (file s.json, type S): both are distinct schema types. Definitions are
+	// declared first, so the definition is S and the root the next free name, S_1; the documents are decoded into that type
+	var rootVsDef []SCase
+	for _, n := range []string{"s", "S"} {
+		rootVsDef = append(rootVsDef, SCase{ID: "C14/same-type-name/definition-named-like-the-root/" + n, Cfg: baseCfg(), Axes: map[string]string{"pos": "same-type-name", "leaf": "root-vs-definition"},
+			Schema: J{"type": "object", "properties": J{"outer": J{"type": "integer"}, "t": J{"$ref": "#/$defs/" + n}}, "required": A{"outer"},
+				"$defs": J{n: J{"type": "object", "properties": J{"inner": J{"type": "string"}}, "required": A{"inner"}}}}})
+	}
+	runBehaviour(ctx, behaviour{Name: "root-vs-definition", Cases: rootVsDef, Values: true, Type: "S_1", Devs: []string{"LEN_BYTES"},
+		OnNoType: func(sc *SCase, p *batch.Program) {
+			ctx.Run.Violation("root-type-not-declared", fmt.Sprintf("%s: a definition takes the name of the root type and the root schema is not declared under a name of its own (types declared: %v)", sc.ID, p.Types),
+				map[string]any{"kind": "gen", "files": sc.Case().Files, "args": sc.Case().Args, "cfg": sc.Case().Cfg})
+		},
+		OnBuildErr: func(sc *SCase, msg string) {
+			ctx.Run.Violation("definition-names-not-compiling", fmt.Sprintf("%s: emitted code does not compile: %s", sc.ID, firstLine(msg)),
+				map[string]any{"kind": "gen", "files": sc.Case().Files, "args": sc.Case().Args, "cfg": sc.Case().Cfg})
+		}})
 	runBehaviour(ctx, behaviour{Name: "defnames", Cases: defCases, Values: true, Devs: []string{"LEN_BYTES", "ANYOF_MERGED_FIELD_TYPES"},
 		OnBuildErr: func(sc *SCase, msg string) {
 			if sc.Axes["leaf"] == "plain-then-anyof" && reSuffixedMember.MatchString(msg) && ctx.Run.Listed("ANYOF_SUFFIXED_NAME_MEMBERS_UNDEFINED") {
